@@ -589,6 +589,10 @@ int process_patch(const Options& options)
             continue;
         }
 
+        // A file which is written under a new name keeps the permissions of the file it came from.
+        if (permission_result.old_permissions == filesystem::perms::unknown && (patch.operation == Operation::Rename || patch.operation == Operation::Copy))
+            permission_result.old_permissions = filesystem::get_permissions(file_to_patch);
+
         File input_file;
         // The file to patch is only ever read from, the result is written out separately.
         input_file.open(file_to_patch, (mode & std::ios::binary) | std::ios_base::in);
